@@ -87,6 +87,8 @@ def simulate(script: dict) -> Any:
         return _simulate(script)
     install_seams()
     reset_globals()
+    from sim.sched_world import UUID_COUNTER
+    UUID_COUNTER["n"] = 0
     world = SchedWorld({"run_seed": script["run_seed"], "cpu": {"on": False}, "kicks": {}})
     loop = world.loop
     CLOCK.update(epoch_us=script["start"]["epoch_us"], local_off_min=0, loop=loop, fixed_us=None)
